@@ -7,6 +7,7 @@ CONSTANTS
     MaxMid = 2
     FamsFull <- NoFams
     FamsRep <- RepFams
+    FullMid = 2
     FullDepth = 0
 INVARIANT Emit
 INVARIANT ReportHoles
